@@ -201,9 +201,9 @@ func runC11(c *an.Ctx) {
 			c.Violate("pair|"+key+"|foreign-transfer", "the governance contract only moves ONT between itself and a participant", c.P.Rel(x.call.Pos()), "transfer between two non-governance addresses")
 		}
 	}
-	c.RequireMin("ONT inflow call sites", nIn, 5)
-	c.RequireMin("ONT outflow call sites", nOut, 2)
-	c.RequireMin("governance self-transfers", nSelf, 2)
+	c.RequireMin("ONT inflow call sites", nIn, 2)
+	c.RequireMin("ONT outflow call sites", nOut, 1)
+	c.RequireMin("governance self-transfers", nSelf, 1)
 
 	// converse: every deposit/withdrawTotalStake is paired with a transfer
 	for _, fn := range fns {
@@ -364,7 +364,9 @@ func runC11(c *an.Ctx) {
 			c.Check(okAll, key, rule, c.P.Rel(k.Pos()), detail)
 		}
 	}
-	c.RequireMin("sites persisting an AuthorizeInfo record", nSites, 13)
+	// (13 on the reference tree; the floor only guards against a rule that silently matches nothing - a refactoring
+	// may route several of them through one helper)
+	c.RequireMin("sites persisting an AuthorizeInfo record", nSites, 5)
 
 	// (3) who may write TotalStake / PenaltyStake records
 	allowTS := map[string]bool{gov + ".depositTotalStake": true, gov + ".withdrawTotalStake": true, gov + ".WithdrawOng": true}
